@@ -585,6 +585,9 @@ func (x *run) observations() (out []seen, problems []*Failure) {
 			if a.Dep.Ignored || a.Dep.Builtin != 0 {
 				continue
 			}
+			if a.Dep.T == kit.TVoid && a.Dep.Group == "" {
+				continue // a dependency on a named initializer: there is no instance to observe
+			}
 			tg := m.DepTargets(a.Dep)
 			if a.Dep.Group != "" {
 				if len(tg) != len(a.Entries) {
